@@ -9,7 +9,12 @@
 //!   * a file descriptor response is decoded with prost and compared (full prost equality) with
 //!     every registered `FileDescriptorProto`; the token is the smallest matching index in
 //!     registration order (`fd <i>`), the own reflection descriptor being the last index;
-//!   * errors are `err <code> <hex message>`.
+//!   * errors are `err <code>`: the status code only.  The message text of a status is not part of
+//!     the comparison (DESIGN §3.3); the structural class of an error is the request it answers,
+//!     which is visible from its position in the stream.  Likewise a builder error is
+//!     `build-err decode` / `build-err invalid` (the two variants of `Error`), without its text;
+//!   * the service list is printed sorted when no service name was chosen (the property then fixes
+//!     the list only up to order), and as answered when names were chosen.
 //!
 //! Case grammar (tokens; optional names are `-` or `x<hex>`):
 //!   case   := <kind label> inc <0|1> chosen (none | <k> name*k) regs <n> reg*n streams <s> stream*s
@@ -511,7 +516,7 @@ fn builder_for<'b>(c: &Case, encoded: &'b [Option<Vec<u8>>]) -> Builder<'b> {
 fn build_err(e: &Error) -> String {
     match e {
         Error::DecodeError(_) => "build-err decode".into(),
-        Error::InvalidFileDescriptorSet(s) => format!("build-err invalid {}", hex(s.as_bytes())),
+        Error::InvalidFileDescriptorSet(_) => "build-err invalid".into(),
     }
 }
 
@@ -582,13 +587,14 @@ macro_rules! drive_version {
                     .collect();
                 let sent = reqs.clone();
                 let svc = svc.clone();
+                let sort_services = c.chosen.is_none();
                 let toks: Vec<String> = rt.block_on(async move {
                     let mut o: Vec<String> = vec!["[".into()];
                     let mut client = ServerReflectionClient::new(svc);
                     let resp = client.server_reflection_info(tokio_stream::iter(reqs)).await;
                     let mut inbound = match resp {
                         Err(st) => {
-                            o.push(format!("call-err {} {}", st.code() as i32, hex(st.message().as_bytes())));
+                            o.push(format!("call-err {}", st.code() as i32));
                             o.push("]".into());
                             return o;
                         }
@@ -616,8 +622,12 @@ macro_rules! drive_version {
                                     }
                                     Some(MessageResponse::ListServicesResponse(l)) => {
                                         o.push(format!("svcs {}", l.service.len()));
-                                        for s in &l.service {
-                                            o.push(hex(s.name.as_bytes()));
+                                        let mut names: Vec<&str> = l.service.iter().map(|s| s.name.as_str()).collect();
+                                        if sort_services {
+                                            names.sort_unstable_by(|a, b| a.as_bytes().cmp(b.as_bytes()));
+                                        }
+                                        for n in names {
+                                            o.push(hex(n.as_bytes()));
                                         }
                                     }
                                     Some(MessageResponse::ErrorResponse(e)) => {
@@ -635,7 +645,7 @@ macro_rules! drive_version {
                                 break;
                             }
                             Err(st) => {
-                                o.push(format!("err {} {}", st.code() as i32, hex(st.message().as_bytes())));
+                                o.push(format!("err {}", st.code() as i32));
                                 break;
                             }
                         }
@@ -716,6 +726,73 @@ const IDENTS: [&str; 14] = ["A", "B", "C", "a", "b", "Ab", "A.B", "p", "q", "", 
 const PKGS: [&str; 9] = ["", "p", "p.q", "A", "a.b", "q", "p.q.r", "é", "A.B"];
 const FILES: [&str; 7] = ["a.proto", "b.proto", "dir/a.proto", "", "A", "c.proto", "reflection_v1.proto"];
 
+/// Path-shaped file names: spellings that a "helpful" lookup might identify with each other
+/// (`./x`, `/x`, `x/`, doubled separators, `..`, case, trailing NUL / space, percent-escapes,
+/// backslashes).  The index must treat every one of them as a different name.
+const PATHY: [&str; 18] = [
+    "./a.proto", "/a.proto", "a.proto/", "dir//a.proto", "dir/../a.proto", "dir/./a.proto", "A.PROTO", "Dir/a.proto",
+    "a.proto ", " a.proto", "a.proto\0", "a%2Eproto", "dir%2Fa.proto", "dir%2fa.proto", "dir\\a.proto", "././a.proto",
+    "../a.proto", "a.proto%00",
+];
+
+/// Path-shaped near misses of a file name (both directions: adding and removing decoration).
+fn path_variants(s: &str) -> Vec<String> {
+    let mut v: Vec<String> = vec![
+        format!("./{}", s),
+        format!("././{}", s),
+        format!("/{}", s),
+        format!("{}/", s),
+        format!("dir/../{}", s),
+        format!("../{}", s),
+        format!("{} ", s),
+        format!(" {}", s),
+        format!("{}\0", s),
+        format!("{}%00", s),
+        s.to_uppercase(),
+        s.to_lowercase(),
+        s.replace('.', "%2E"),
+        s.replace('.', "%2e"),
+        s.replace('/', "%2F"),
+        s.replace('/', "\\"),
+        s.replacen('/', "//", 1),
+        s.replacen('/', "/./", 1),
+        s.replace("%2E", ".").replace("%2e", ".").replace("%2F", "/").replace("%2f", "/").replace("%00", ""),
+        s.replace("//", "/"),
+        s.replace("/./", "/"),
+        s.replace("\\", "/"),
+        s.trim_start_matches("./").to_string(),
+        s.trim_start_matches('/').to_string(),
+        s.trim_end_matches('/').to_string(),
+        s.trim().to_string(),
+        s.trim_end_matches('\0').to_string(),
+    ];
+    if let Some((d, f)) = s.split_once('/') {
+        v.push(format!("{}/../{}/{}", d, d, f));
+        v.push(format!("{}//{}", d, f));
+        if d == ".." || d == "." {
+            v.push(f.to_string());
+        }
+    } else {
+        v.push(format!("dir//{}", s));
+    }
+    if let Some(rest) = s.strip_prefix("dir/../") {
+        v.push(rest.to_string());
+    }
+    v.retain(|x| x != s);
+    v.sort();
+    v.dedup();
+    v
+}
+
+fn mutate_path(rng: &mut Rng, s: &str) -> String {
+    let v = path_variants(s);
+    if v.is_empty() {
+        format!("./{}", s)
+    } else {
+        rng.pick(&v).clone()
+    }
+}
+
 struct G<'a> {
     rng: &'a mut Rng,
     /// probability (percent) of a missing name at each position
@@ -772,6 +849,8 @@ impl<'a> G<'a> {
         let ns = self.count(2);
         let name = if self.rng.chance(self.p_missing, 100) {
             None
+        } else if self.rng.chance(1, 6) {
+            Some((*self.rng.pick(&PATHY)).to_string())
         } else {
             Some((*self.rng.pick(&FILES)).to_string())
         };
@@ -944,6 +1023,9 @@ fn streams_for(rng: &mut Rng, files: &[&FileD], own: Option<&(FileD, FileD)>, de
         if !fnames.is_empty() {
             let n = rng.pick(&fnames).clone();
             bad.push(ReqK::F(mutate_name(rng, &n)));
+            // path-shaped near misses of a file name
+            bad.push(ReqK::F(mutate_path(rng, &n)));
+            bad.push(ReqK::F(mutate_path(rng, &n)));
             // a symbol asked as a file and a file asked as a symbol
             bad.push(ReqK::Y(n));
         }
@@ -1143,10 +1225,48 @@ fn corpus(rng: &mut Rng) -> Vec<String> {
     // 10. a user file that takes the own descriptor's file name (own descriptor is then skipped)
     let squat = fl("reflection_v1.proto", Some("grpc.reflection.v1"), 0, vec![m("ServerReflectionRequest", vec![], vec![], &["host"], &[])], vec![], vec![]);
     out.push(finish("corpus", rng, true, None, vec![Reg::S(vec![squat])], true));
+    // 12. path-shaped file names: every spelling is its own name.  Each registered spelling and
+    //     every variant of it is asked in a stream of its own (an error ends a stream).
+    out.extend(path_corpus());
     // 11. empty everything
     out.push(finish("corpus", rng, false, None, vec![], false));
     out.push(finish("corpus", rng, false, None, vec![Reg::S(vec![]), Reg::E(vec![])], false));
     out.push(finish("corpus", rng, false, None, vec![Reg::S(vec![fl("", Some(""), 0, vec![m("", vec![m("", vec![], vec![], &[""], &[""])], vec![en("", &[""])], &[], &[])], vec![], vec![sv("", &[""])])])], true));
+    out
+}
+
+fn path_corpus() -> Vec<String> {
+    let mut out = Vec::new();
+    let one = |name: &str, i: usize| fl(name, Some("pp"), 0, vec![m(&format!("M{}", i), vec![], vec![], &["f"], &[])], vec![], vec![]);
+    let one_stream = |k: ReqK| vec![Req { host: String::new(), k }];
+    let groups: Vec<Vec<&str>> = vec![
+        vec!["a.proto"],
+        vec!["dir/a.proto"],
+        vec!["./a.proto"],
+        vec!["/a.proto", "a.proto/"],
+        vec!["dir//a.proto", "dir/../a.proto"],
+        vec!["A.PROTO", "a.proto ", "a.proto\0"],
+        vec!["a%2Eproto", "dir%2Fa.proto"],
+        // decorated and plain spelling registered side by side: each retrieves its own file
+        vec!["a.proto", "./a.proto", "/a.proto", "A.proto"],
+    ];
+    for g in groups {
+        let files: Vec<FileD> = g.iter().enumerate().map(|(i, n)| one(n, i)).collect();
+        let mut asked: BTreeSet<String> = BTreeSet::new();
+        for n in &g {
+            asked.insert(n.to_string());
+            asked.extend(path_variants(n));
+        }
+        let mut streams: Vec<Vec<Req>> = asked.iter().map(|n| one_stream(ReqK::F(n.clone()))).collect();
+        // the declared symbol still resolves to its file, whatever the file is called
+        for i in 0..g.len() {
+            streams.push(one_stream(ReqK::Y(format!("pp.M{}", i))));
+        }
+        for enc in [false, true] {
+            let regs = vec![if enc { Reg::E(files.clone()) } else { Reg::S(files.clone()) }];
+            out.push(format!("corpus {}", render_case(&Case { inc: false, chosen: None, regs, streams: streams.clone(), own: None })));
+        }
+    }
     out
 }
 
